@@ -131,6 +131,10 @@ PAIRS = {
     'LaxSlicedPacketCursor::slice_ip': ['h_packet::c05_lax_vs_strict_ip_v4_udp', 'h_packet::c05_lax_vs_strict_ip_v4_auth', 'h_packet::c05_lax_vs_strict_ip_v6_udp', 'h_packet::c05_lax_vs_strict_ip_any_short'],
     'LaxSlicedPacketCursor::parse_from_ip': ['h_packet::c05_lax_vs_strict_ip_v4_udp', 'h_packet::c05_lax_vs_strict_ip_v4_auth', 'h_packet::c05_lax_vs_strict_ip_v6_udp', 'h_packet::c05_lax_vs_strict_ip_any_short'],
     'LaxSlicedPacket::from_ip': ['h_packet::c05_lax_vs_strict_ip_v4_udp', 'h_packet::c05_lax_vs_strict_ip_v4_auth', 'h_packet::c05_lax_vs_strict_ip_v6_udp', 'h_packet::c05_lax_vs_strict_ip_any_short'],
+    'LaxSlicedPacketCursor::slice_ether_type': ['h_packet::c06_doors_ether_type_vs_ip_v4_udp', 'h_packet::c06_doors_ether_type_vs_ip_v6_udp', 'h_pairs::c05_link_exts_vlan'],
+    'LaxSlicedPacketCursor::parse_from_ether_type': ['h_packet::c06_doors_ether_type_vs_ip_v4_udp', 'h_packet::c06_doors_ether_type_vs_ip_v6_udp'],
+    'LaxSlicedPacket::from_ether_type': ['h_packet::c06_doors_ether_type_vs_ip_v4_udp', 'h_packet::c06_doors_ether_type_vs_ip_v6_udp'],
+    'LaxSlicedPacketCursor::slice_arp': ['h_packet::c01_touch_arp_packet_slice'],
     'LinuxSllHeaderSlice::sender_address': ['h_packet::c01_touch_linux_sll_slice'],
     # second session: every function whose proof carries statement anchors has a paired harness, so that a reshaped body ends in a
     # counterexample search instead of UNDECIDED
